@@ -13,7 +13,7 @@ from sa.report import Ctx
 from .common import generic_sweeps
 
 from .sat_common import check_binary_add
-from .cp_common import check_alldiff_coverage, check_constraint_table, check_small_semantics, check_cumulative_horizon, check_id_allocation, check_solve_is_read_only, check_domain_fields_fixed, check_unsat_sites, flattener_tags, produced_tags, shape_dispatch_falls_through, structural_len_subjects
+from .cp_common import check_alldiff_coverage, check_constraint_table, check_small_semantics, check_cumulative_horizon, check_id_allocation, check_solve_is_read_only, check_domain_fields_fixed, check_report_filter, check_unsat_sites, flattener_tags, produced_tags, shape_dispatch_falls_through, structural_len_subjects
 
 EXPLANATION = (
     "Decides structural necessary conditions of 'the CNF has exactly the CP models' on cp_encoder.py: (O1) the "
@@ -385,9 +385,7 @@ def run(ctx: Ctx):
     td = ast.unparse(dec.node)
     ok = "for name, var in self.model._vars.items()" in td and "for val, bool_var in var.bool_vars.items()" in td and "cp_sol[name] = val" in td
     ctx.ob("C06-O5", "R18 table", dec, "decode iterates every model variable and reads only that variable's own literals", ok, "", node=dec.node)
-    skip = [n for n in own_nodes(dec.node) if isinstance(n, ast.If) and any(isinstance(x, ast.Continue) for x in n.body)]
-    ok2 = all(ast.unparse(s.test) == "name.startswith('_')" for s in skip)
-    ctx.ob("C06-O5", "R18 table", dec, "only underscore-prefixed (auxiliary) variables are left out of decoded solutions", ok2, f"{[ast.unparse(s.test) for s in skip]}", node=dec.node)
+    ctx.step(check_report_filter, "C06-O5")
     # all decoded solutions go through decode
     for n in own_nodes(solve.node):
         if isinstance(n, ast.Call) and isinstance(n.func, ast.Name) and n.func.id == "Result":
@@ -452,7 +450,7 @@ def _v_vars_after_solver(tree):
 
 def _v_decode_other_var(tree):
     g = M.find_func(tree, "SATEncoder.solve.decode_sat_solution")
-    M.replace_stmt(g, lambda s: isinstance(s, ast.If) and M.src_has(s.test, "startswith"), M.stmts("if name.startswith('_') or name.startswith('x'):\n    continue"))
+    M.replace_stmt(g, lambda s: isinstance(s, ast.If) and M.src_has(s.test, "_unnamed"), M.stmts("if name in self.model._unnamed or name.startswith('x'):\n    continue"))
 
 
 def _v_shape_again(tree):
@@ -613,7 +611,13 @@ def _v_cumulative_overload_shortcut(tree):
     M.insert(g, "min_start = ", "if max(demands) > capacity:\n    self._clauses.append([])\n    return")
 
 
+def _v_decode_filter_by_spelling(tree):
+    g = M.find_func(tree, "SATEncoder.solve.decode_sat_solution")
+    M.replace_expr(g, lambda e: M.src_is(e, "name in self.model._unnamed"), M.expr("name.startswith('_')"))
+
+
 VARIANTS = [
+    M.Variant("the SAT decoder drops every name that starts with an underscore, the caller's own included (original defect, ledger row 80)", ENC, _v_decode_filter_by_spelling, "C06-O5"),
     M.Variant("cumulative declares the model infeasible when one demand exceeds the capacity, also for a task that never runs (seed C06-T)", ENC, _v_cumulative_overload_shortcut, "C06-O13"),
     M.Variant("the encoder skips a constraint that compares equal to an earlier one (seed C06-Q)", ENC, _v_constraint_loop_skips_repeats, "C06-O1"),
     M.Variant("zero-coefficient terms kept in the partial-sum chain (seed C06-B)", ENC, _v_zero_filter_early, "C06-O4"),
